@@ -287,6 +287,9 @@ func CliArgs(n int, parseOK, typeOK bool) {
 	}
 }
 
+// CliTrailing appends one more token after the file arguments (a flag written after the file).
+func CliTrailing(tok string) { os.Args = append(os.Args, tok) }
+
 func cliOutput() string {
 	if cliStdout == nil {
 		return ""
